@@ -7,7 +7,7 @@ from .. import core, eqv, values, vtypes, gens
 
 ID = 'C17'
 LEVEL = 'exploration'
-RULE = ('two families. (call) pretty_call / pretty_call_alt invoked with: callable in {builtin function, builtin type, '
+RULE = ('three families. (ctx) trees of user objects whose printers hand a flag down with PrettyContext.assoc (set twice in a row, cleared, nested): a leaf is masked iff it sits below a masking node - siblings, parents and later calls are unaffected. (call) pretty_call / pretty_call_alt invoked with: callable in {builtin function, builtin type, '
         'module-level function, C function of another module, built-in and Python classmethods, class, nested class, plain str name}, 0-4 positional value recipes (incl. the hugged sole '
         'list/dict/tuple, commented arguments, nested calls), 0-4 keyword arguments with names from a pool incl. fn, ctx, '
         'args, kwargs, self (pretty_call only with names a caller can pass), kwargs given as list of pairs / OrderedDict / '
@@ -135,7 +135,19 @@ def enumerate_cases(tier):
             yield {'kind': 'call', 'fn': 'Box', 'mode': mode, 'args': [], 'kwargs': kw, 'width': 79, 'indent': 4}
 
 
+def _ctx_cases():
+    L = lambda n: ['leaf', n]
+    trees = [['section', [['secret', [L(1)]], L(2)]], ['section', [L(0), ['secret', [['secret', [L(1)]], L(2)]], L(3)]],
+             ['section', [['secret', [['reveal', [L(1)]], L(2)]], L(3), ['section', [L(4)]]]],
+             ['secret', [['section', [L(1), ['reveal', [L(2), ['secret', [L(3)]], L(4)]], L(5)]]]],
+             ['section', [['section', [['secret', [L(1)]]]], ['section', [L(2)]], ['reveal', [L(3)]]]]]
+    for t in trees:
+        for w in (79, 10):
+            yield {'kind': 'ctx', 'tree': t, 'width': w}
+
+
 def fixed_cases():
+    yield from _ctx_cases()
     for pseudo in ([['classvar', 'count', ['int', 0], ['int', 2]]], [['classvar', 'cv', ['str', 'x'], None]], [['initvar', 'iv', ['int', 1], None]],
                    [['classvar', 'registry', ['none'], ['str', 'changed']], ['initvar', 'iv', ['int', 0], None]]):
         for slots in (False, True):
@@ -215,7 +227,11 @@ def strategy(tier):
         'fields': st.lists(field, max_size=5, unique_by=lambda f: f['name']), 'pseudo': pseudo, 'kw_only': st.sampled_from([False, False, False, True]),
         'inherit': st.sampled_from([0, 0, 1, 2]), 'unset_attr': st.sampled_from([False, False, True]),
         'width': st.one_of(st.integers(1, 100), st.just(79)), 'indent': st.sampled_from([2, 4]), 'sort': st.booleans()})
-    return st.one_of(call_alt, call_plain, cls, cls)
+    ctx_tree = st.recursive(st.integers(0, 9).map(lambda n: ['leaf', n]),
+                            lambda ch: st.tuples(st.sampled_from(['section', 'section', 'secret', 'reveal']), st.lists(ch, min_size=1, max_size=3)).map(list),
+                            max_leaves=8)
+    ctxcase = st.fixed_dictionaries({'kind': st.just('ctx'), 'tree': ctx_tree.filter(lambda r: r[0] != 'leaf'), 'width': st.sampled_from([79, 20, 5])})
+    return st.one_of(call_alt, call_plain, cls, cls, ctxcase)
 
 
 # ---------------------------------------------------------------------------
@@ -504,7 +520,47 @@ def oracle_class(case):
     return core.ok(omitted >= 1 and len(expected) >= 1, labels)
 
 
+# ---------------------------------------------------------------------------
+# (c) user context handed down by printers
+
+def _build_ctx(r):
+    return vtypes.CtxNode(r[0], [_build_ctx(c) for c in r[1]] if r[0] != 'leaf' else (), r[1] if r[0] == 'leaf' else 0)
+
+
+def _expected_ctx(r, mask):
+    if r[0] == 'leaf':
+        return "'***'" if mask else str(r[1])
+    if r[0] == 'secret':
+        mask = True
+    elif r[0] == 'reveal':
+        mask = False
+    return '%s(%s)' % (r[0], ', '.join(_expected_ctx(c, mask) for c in r[1]))
+
+
+def oracle_ctx(case):
+    # what a printer stores with ctx.assoc() reaches the values printed below it and nothing else: not its siblings,
+    # not its parent, not a later call
+    v = _build_ctx(case['tree'])
+    want = ast.dump(ast.parse(_expected_ctx(case['tree'], False), mode='eval'))
+    for rnd in (0, 1):
+        p = values.pp(v, width=case['width'], ribbon_width=case['width'], indent=4)
+        if p.exc is not None:
+            return core.viol('pformat-raised', repr(p.exc), ['ctx'])
+        if p.fallback_warnings():
+            return core.viol('printer-failed', p.fallback_warnings()[0][:400], ['ctx'])
+        try:
+            got = ast.dump(ast.parse('(' + p.text + '\n)', mode='eval'))
+        except SyntaxError as e:
+            return core.viol('not-an-expression', '%r\n%s' % (e, p.text[:400]), ['ctx'])
+        if got != want:
+            return core.viol('user-context-leaks', 'print %d: expected %s\ngot\n%s' % (rnd + 1, _expected_ctx(case['tree'], False), p.text[:600]), ['ctx'])
+    kinds = core.canonical(case['tree'])
+    return core.ok('"secret"' in kinds and '"leaf"' in kinds, ['ctx'])
+
+
 def oracle(case):
     if case['kind'] == 'call':
         return oracle_call(case)
+    if case['kind'] == 'ctx':
+        return oracle_ctx(case)
     return oracle_class(case)
